@@ -138,6 +138,11 @@ impl Findings {
             Err(_) => Findings::default(),
         }
     }
+    /// process-wide copy (oracles consult it to exclude the feature class of a recorded finding)
+    pub fn load_cached() -> &'static Findings {
+        static F: std::sync::OnceLock<Findings> = std::sync::OnceLock::new();
+        F.get_or_init(Findings::load)
+    }
     /// true when the finding `id` is recorded as still present (so its class is excluded
     /// from the main search and only its pinned witness is replayed)
     pub fn active(&self, id: &str) -> bool {
@@ -404,6 +409,7 @@ impl Ctx {
                 eprintln!("warning: witness {path} names unknown sub-check {sub}");
                 continue;
             };
+            self.subs.entry("replay-tier".into()).or_default().evaluations += 1;
             match (&rep.verdict, f.status.as_str()) {
                 (Some(msg), "known") => {
                     let same = f.expect.as_ref().map_or(true, |e| msg.contains(e.as_str()));
